@@ -8,3 +8,5 @@ command -v $GO >/dev/null 2>&1 || GO=/opt/veriftools/go1.26.8/bin/go
 mkdir -p ../bin
 $GO build -o ../bin/uqcheck .
 echo "built /verif/bin/uqcheck"
+# the mutant generator used by tools/mutscore.py (a measuring tool, not a check)
+(cd ../tools/mutgen && $GO build -o ../../bin/mutgen . ) && echo "built /verif/bin/mutgen"
